@@ -13,3 +13,13 @@ CHECKS = {
              "ReorderFetcher with gates and the emitted sequence is compared after every action.",
         note="Bounded constants (<=6 items, batch<=3, buffer<=3); gate placement (5 hook points) defines the schedule granularity; fetch is the identity; FakeTimer semantics for expiry."),
 }
+
+# family fragments: checks/reg_<family>.py may define ENGINES (list), CHECKS (dict), NOT_APPLICABLE (dict)
+import glob as _glob, importlib.util as _u, os as _os
+for _f in sorted(_glob.glob(_os.path.join(_os.path.dirname(__file__), "reg_*.py"))):
+    _spec = _u.spec_from_file_location(_os.path.basename(_f)[:-3], _f)
+    _m = _u.module_from_spec(_spec)
+    _spec.loader.exec_module(_m)
+    ENGINES.extend(getattr(_m, "ENGINES", []))
+    CHECKS.update(getattr(_m, "CHECKS", {}))
+    NOT_APPLICABLE.update(getattr(_m, "NOT_APPLICABLE", {}))
